@@ -7,6 +7,9 @@ import Yv.Cert.CompleteX
 import Yv.Cert.LAOracle
 import Yv.Model.PackA
 import Yv.Model.Views
+import Yv.Model.LR0L
+import Yv.Model.SplitA
+import Yv.Model.ListingDrv
 import Yv.Model.Drive
 import Yv.Model.XDrv
 import Yv.Model.Visitor
@@ -58,6 +61,8 @@ structure CaseAcc where
   codes : Option (Int × Int) := none
   wantDot : Bool := false
   dnames : Array String := #[]
+  rnames : Array String := #[]
+  iLLA : Array (Nat × Nat × List Nat) := #[]
 
 def parseItem (s : String) : Item :=
   match s.splitOn "." with
@@ -86,12 +91,20 @@ def process (out : IO.FS.Stream) (a : CaseAcc) : IO Unit := do
   let g : Gram := { nSyms := a.nSyms, nT := a.nT, prec := a.prec, assoc := a.assoc, rules := a.rules }
   -- M: mirror, stage by stage.  Each stage is recomputed by the model FROM THE IMPLEMENTATION'S
   -- PREVIOUS STAGE, so a difference is local to the stage that introduced it.
-  match buildLR0 g with
+  -- LR(0): the VERIFIED list-based worklist `Y.buildL` (C09_gen: its result always is the canonical
+  -- collection); the array-based `Core.buildLR0` must agree with it (same states, same numbering)
+  let yg0 := toY g
+  match Y.buildL yg0 with
   | none => out.putStrLn "M TOO-MANY-STATES"
-  | some au =>
-    for q in [0:au.states.size] do
-      out.putStrLn (s!"M STATE {q} " ++ " ".intercalate ((au.states[q]!).map fun (r, d) => s!"{r}.{d}"))
-      for (x, p) in au.gotos[q]! do out.putStrLn s!"M GOTO {q} {x} {p}"
+  | some la =>
+    for q in [0:la.n] do
+      out.putStrLn (s!"M STATE {q} " ++ " ".intercalate ((la.its q).map fun it => s!"{it.r}.{it.d}"))
+      for (x, p) in la.gts q do out.putStrLn s!"M GOTO {q} {x} {p}"
+    match buildLR0 g with
+    | none => out.putStrLn "X coreLR0=buildL FAIL none"
+    | some au =>
+      let same := au.states.toList.map (fun its => its.map fun (r, d) => (⟨r, d⟩ : Y.Item)) == la.items && au.gotos.toList == la.gotos
+      out.putStrLn s!"X coreLR0=buildL {verdict same}"
   let iau0 : Auto := { states := a.iStates, gotos := a.iGotos }
   -- lookaheads: the propagation fixpoint on the implementation's automaton
   match lalr g iau0 with
@@ -114,6 +127,20 @@ def process (out : IO.FS.Stream) (a : CaseAcc) : IO Unit := do
     let s := PackX.trySplit irows g.nT
     let p := PackX.packTable s.tab
     let need := !(p.act.length + p.off.length + s.actdef.length + s.gtdef.length > irows.length * g.nSyms)
+    -- hypotheses of C05_split_lookup on the implementation's dense table
+    let ecode : Int := match a.codes with | some (e, _) => e | none => irows.length + 100
+    let simple := SplitA.DenseSimple irows g.nT ecode
+    out.putStrLn s!"V denseSimple {verdict simple}"
+    -- `denseWF_of_simple`: the simple criterion implies the computed one; where it fails (e.g. a state
+    -- whose actions were all removed by %nonassoc) the computed predicate itself is evaluated
+    if simple then out.putStrLn "V denseWF ok"
+    else if irows.length * g.nSyms ≤ 20000 then
+      out.putStrLn s!"V denseWF {verdict (SplitA.DenseWF irows g.nT g.nSyms ecode)}"
+    else out.putStrLn "V denseWF FAIL too-large-to-evaluate"
+    if irows.length * g.nSyms ≤ 700 then
+      -- small tables: the VERIFIED packing model on the split table must agree with the fast mirror
+      let pa := PackA.packA s.tab
+      out.putStrLn s!"X packA=PackX {verdict (pa.act == p.act && pa.off == p.off && pa.check == p.check)}"
     if need then
       out.putStrLn "M PACKED 1"
       out.putStrLn ("M ACT " ++ ints p.act)
@@ -166,7 +193,8 @@ def process (out : IO.FS.Stream) (a : CaseAcc) : IO Unit := do
   if a.packed then
     let p : PackX.Packed := { act := a.iAct, off := a.iOff, check := a.iChk }
     let s : PackX.Split := { tab := [], actdef := a.iADef, gtdef := a.iGDef }
-    let err : Int := rows.length + 100
+    -- a negative index answers ERROR_ACTION, i.e. the constant the implementation emits
+    let err : Int := match a.codes with | some (e, _) => e | none => rows.length + 100
     let mut bad : Option (Nat × Nat) := none
     for q in [0:rows.length] do
       for x in [0:g.nSyms] do
@@ -182,6 +210,12 @@ def process (out : IO.FS.Stream) (a : CaseAcc) : IO Unit := do
       out.putStrLn s!"M HDOTNODE state_{nd.state} {if nd.filled then 1 else 0} {hexEncode (Y.nodeLabel nd)}"
     for e in d.edges do
       out.putStrLn s!"M HDOTEDGE state_{e.src} state_{e.dst} {hexEncode ("\"" ++ e.label ++ "\"")}"
+  -- the text listing of the verified listing model (C18_listing_*) on the implementation's automaton
+  -- and on its lookahead lists in the implementation's own order
+  if a.rnames.size > 0 then
+    let (sl, ll) := Y.listingLines a.rnames yg a.iStates a.iGotos a.iLLA
+    for l in sl do out.putStrLn s!"M HLISTS {hexEncode l}"
+    for l in ll do out.putStrLn s!"M HLISTLA {hexEncode l}"
   -- R: the driver model run on the implementation's dense table
   -- the action constants are the ones the implementation will emit (CODES line); on a certified
   -- table they are `errCode n` / `accCode n` and P is exactly `dparams` (checked as V codes)
@@ -402,6 +436,13 @@ partial def loop (inp out : IO.FS.Stream) (a : CaseAcc) (x : XAcc := {}) : IO Un
   | "GDEF" :: xs => loop inp out { a with iGDef := xs.map String.toInt! }
   | "INPUT" :: xs => loop inp out { a with inputs := a.inputs.push (xs.map String.toNat!) }
   | "CODES" :: e :: c :: _ => loop inp out { a with codes := some (e.toInt!, c.toInt!) }
+  | "LLA" :: q :: r :: syms =>
+    loop inp out { a with iLLA := a.iLLA.push (q.toNat!, r.toNat!, syms.map String.toNat!) }
+  | "RNAME" :: i :: rest =>
+    let nm := match String.fromUTF8? (hexDecode (rest.headD "")) with | some x => x | none => "?"
+    let idx := i.toNat!
+    let arr := if a.rnames.size ≤ idx then a.rnames ++ Array.replicate (idx + 1 - a.rnames.size) "" else a.rnames
+    loop inp out { a with rnames := arr.set! idx nm }
   | "WANTDOT" :: _ => loop inp out { a with wantDot := true }
   | "DNAME" :: i :: rest =>
     let nm := match String.fromUTF8? (hexDecode (rest.headD "")) with | some x => x | none => "?"
